@@ -459,7 +459,7 @@ Section SanitizeProofs.
       (forall v, In v vs -> snd v = None <-> fst v = wire_name v).
   Proof.
     intros raws vs H. unfold variants in H.
-    destruct (variant_idents cls raws) as [ids|] eqn:E; [|discriminate].
+    destruct (variant_idents cls raws) as [ids| |] eqn:E; [|discriminate|discriminate].
     injection H as <-.
     destruct (variants_distinct_or_fail _ _ E) as [Hn [Hl _]].
     destruct (map_wire_combine _ _ Hl) as [H1 H2].
@@ -483,10 +483,12 @@ Section SanitizeProofs.
       unfold recase. cbn [fst]. apply sanitize_accepted.
   Qed.
 
-  (* the classes of inputs on which the code produces duplicate names *)
-  Definition Known_F1 (props : list ustring) : Prop :=
+  (* the inputs on which sanitised names collide: Fields_collide and
+     Field_collides_extra are rejected by struct_members since fix 5896b59;
+     Known_F2 (definitions) still produces duplicate items (finding C08-F2) *)
+  Definition Fields_collide (props : list ustring) : Prop :=
     exists p1 p2, In p1 props /\ In p2 props /\ p1 <> p2 /\ sanitize cls p1 Snake = sanitize cls p2 Snake.
-  Definition Known_F3 (props : list ustring) (typed_additional : bool) : Prop :=
+  Definition Field_collides_extra (props : list ustring) (typed_additional : bool) : Prop :=
     typed_additional = true /\ exists p, In p props /\ sanitize cls p Snake = s_extra.
   Definition Known_F2 (defs : list ustring) : Prop :=
     exists d1 d2, In d1 defs /\ In d2 defs /\ d1 <> d2 /\ sanitize cls d1 Pascal = sanitize cls d2 Pascal.
@@ -518,7 +520,7 @@ Section SanitizeProofs.
   Proof. apply list_eq_dec. apply N.eq_dec. Qed.
 
   Theorem fields_distinct_excl : forall props typed_additional,
-      NoDup props -> ~ Known_F1 props -> ~ Known_F3 props typed_additional ->
+      NoDup props -> ~ Fields_collide props -> ~ Field_collides_extra props typed_additional ->
       NoDup (struct_field_names cls props typed_additional).
   Proof.
     intros props ta Hn H1 H3. unfold struct_field_names.
@@ -533,6 +535,61 @@ Section SanitizeProofs.
       unfold field_idents in Hin. rewrite map_map in Hin. cbn [recase fst] in Hin.
       apply in_map_iff in Hin. destruct Hin as [p [E Hp]]. exists p. auto.
     - rewrite app_nil_r. exact Hf.
+  Qed.
+
+  Lemma NoDup_map_In_inj : forall (A B : Type) (f : A -> B) (l : list A) x y,
+      NoDup (List.map f l) -> In x l -> In y l -> f x = f y -> x = y.
+  Proof.
+    intros A B f. induction l as [|a l IH]; intros x y Hn Hx Hy E; [destruct Hx|].
+    cbn [List.map] in Hn. inversion Hn as [|? ? Ha Hn']; subst.
+    destruct Hx as [Hx|Hx]; destruct Hy as [Hy|Hy].
+    - congruence.
+    - subst a. exfalso. apply Ha. rewrite E. apply in_map. exact Hy.
+    - subst a. exfalso. apply Ha. rewrite <- E. apply in_map. exact Hx.
+    - apply IH; assumption.
+  Qed.
+
+  (* struct fields: distinct identifiers bound to exactly the property names,
+     or Err -- never duplicates (structs.rs:119-144) *)
+  Theorem struct_members_distinct_or_err : forall props ta fs fl,
+      struct_members cls props ta = Ok (fs, fl) ->
+      NoDup (List.map fst fs ++ fl) /\
+      List.map wire_name fs = props /\
+      Forall (fun f => syn_ident_ok cls (fst f) = true) fs /\
+      fl = (if ta then [s_extra] else []).
+  Proof.
+    intros props ta fs fl H. unfold struct_members in H.
+    destruct (unique (struct_field_names cls props ta)) eqn:E; [|discriminate].
+    injection H as <- <-. apply unique_NoDup in E. unfold struct_field_names in E.
+    destruct (fields_wire props) as [Hw Hv]. auto.
+  Qed.
+
+  (* Err is reported only for colliding names ... *)
+  Theorem struct_members_ok_without_collision : forall props ta,
+      NoDup props -> ~ Fields_collide props -> ~ Field_collides_extra props ta ->
+      exists r, struct_members cls props ta = Ok r.
+  Proof.
+    intros props ta Hn H1 H3. unfold struct_members.
+    pose proof (fields_distinct_excl props ta Hn H1 H3) as Hd.
+    apply unique_NoDup in Hd. rewrite Hd. eexists. reflexivity.
+  Qed.
+
+  (* ... and for every collision *)
+  Theorem struct_members_err_on_collision : forall props ta,
+      Fields_collide props \/ Field_collides_extra props ta ->
+      struct_members cls props ta = Err.
+  Proof.
+    intros props ta H. unfold struct_members.
+    destruct (unique (struct_field_names cls props ta)) eqn:E; [|reflexivity].
+    exfalso. apply unique_NoDup in E. unfold struct_field_names, field_idents in E.
+    rewrite map_map in E. cbn [recase fst] in E.
+    destruct H as [[p1 [p2 [H1 [H2 [Hne Hs]]]]]|[Hta [p [Hp Hs]]]].
+    - assert (Hl : NoDup (List.map (fun x => sanitize cls x Snake) props)).
+      { destruct ta; [|rewrite app_nil_r in E; exact E].
+        apply NoDup_remove_1 in E. rewrite app_nil_r in E. exact E. }
+      apply Hne. exact (NoDup_map_In_inj _ _ _ _ _ _ Hl H1 H2 Hs).
+    - subst ta. apply NoDup_remove_2 in E. apply E. rewrite app_nil_r.
+      rewrite <- Hs. apply (in_map (fun x => sanitize cls x Snake)). exact Hp.
   Qed.
 
   Theorem defs_distinct_excl : forall defs,
@@ -622,26 +679,22 @@ Proof. intros l H. apply unique_NoDup. exact H. Qed.
 Lemma dup_by_unique : forall l, unique l = false -> ~ NoDup l.
 Proof. intros l H Hn. apply unique_NoDup in Hn. congruence. Qed.
 
-Theorem Known_F1_fails :
-  NoDup w_f1 /\ Known_F1 ascii_classes w_f1 /\ ~ Known_F3 ascii_classes w_f1 false /\
-  ~ NoDup (struct_field_names ascii_classes w_f1 false).
+(* the former witnesses of C08-F1 / C08-F3 are rejected (regression cases) *)
+Theorem fields_witnesses_rejected :
+  NoDup w_f1 /\ Fields_collide ascii_classes w_f1 /\
+  struct_members ascii_classes w_f1 false = Err /\
+  NoDup w_f3 /\ Field_collides_extra ascii_classes w_f3 true /\
+  struct_members ascii_classes w_f3 true = Err /\
+  struct_members ascii_classes w_f3 false = Ok ([(ustr "extra", None)], []).
 Proof.
   split; [apply NoDup_by_unique; vm_compute; reflexivity|]. split.
-  - exists (ustr "foo-bar"), (ustr "foo_bar"). split; [left; reflexivity|].
+  { exists (ustr "foo-bar"), (ustr "foo_bar"). split; [left; reflexivity|].
     split; [right; left; reflexivity|]. split; [intro E; vm_compute in E; discriminate|].
-    vm_compute. reflexivity.
-  - split; [intros [E _]; discriminate|]. apply dup_by_unique. vm_compute. reflexivity.
-Qed.
-
-Theorem Known_F3_fails :
-  NoDup w_f3 /\ ~ Known_F1 ascii_classes w_f3 /\ Known_F3 ascii_classes w_f3 true /\
-  ~ NoDup (struct_field_names ascii_classes w_f3 true).
-Proof.
+    vm_compute. reflexivity. }
+  split; [vm_compute; reflexivity|].
   split; [apply NoDup_by_unique; vm_compute; reflexivity|]. split.
-  - intros [p1 [p2 [H1 [H2 [Hne _]]]]]. destruct H1 as [<-|[]]. destruct H2 as [<-|[]]. apply Hne. reflexivity.
-  - split.
-    + split; [reflexivity|]. exists (ustr "extra"). split; [left; reflexivity|]. vm_compute. reflexivity.
-    + apply dup_by_unique. vm_compute. reflexivity.
+  { split; [reflexivity|]. exists (ustr "extra"). split; [left; reflexivity|]. vm_compute. reflexivity. }
+  split; vm_compute; reflexivity.
 Qed.
 
 Theorem Known_F2_fails :
